@@ -82,3 +82,69 @@ CONTRACTS = [sort_by]
 # for C06): a column whose codes do not all denote the same symbols in the declared alphabet must be refused, never silently relabelled.
 from contracts.c06 import mk_retarget      # noqa: E402
 CONTRACTS.append(mk_retarget("C19"))
+
+
+# --- add_fields: the new table is constructed from every column of the operand plus the given columns; a given column wins over an operand
+# column of the same name (the dataclass machinery - extend(), the generated __init__ - is abstract: the observation point is the constructor call).
+from pyvc.core import SRec, Opaque      # noqa: E402
+
+
+class _NewClass:
+    """what cls.extend(...) returns: calling it records the keyword arguments"""
+
+    def __init__(self, st):
+        self.st = st
+
+    def sym_call(self, ip, args, kwargs, lineno):
+        self.st.ctor_args, self.st.ctor_kwargs = list(args), dict(kwargs)
+        return Opaque("new table")
+
+
+def _mk_add_fields(label, given):
+    """operand columns a, b; `given`: names of the columns handed to add_fields"""
+    def setup(ctx):
+        st = St()
+        st.cols = {"a": z3.Int("column_a"), "b": z3.Int("column_b")}
+        st.new = {k: z3.Int("given_" + k) for k in given}
+        st.selfv = SRec(_cls(), **st.cols)
+        st.args = [dict(st.new)]
+        st.ctor_kwargs = None
+        return st
+
+    def ens(ctx, st, ret):
+        kw = st.ctor_kwargs
+        out = [("the.new.table.is.constructed.once.with.keyword.columns", kw is not None and st.ctor_args == [])]
+        if kw is None:
+            return out
+        want = dict(st.cols)
+        want.update(st.new)
+        out.append(("columns: those of the operand plus the given ones", sorted(kw) == sorted(want)))
+        for k, v in want.items():
+            got = kw.get(k)
+            out.append(("column.%s.is.%s" % (k, "the.given.one" if k in st.new else "the.operand's"), got is not None and conc(I(got) == I(v)) is True))
+        return out
+
+    return Contract("C19.BNPDataClass.add_fields[%s]" % label, target=lambda: _cls().add_fields, setup=setup, requires=lambda ctx, st: [], ensures=ens,
+                    callees={"bionumpy.bnpdataclass.bnpdataclass._extract_field_types": lambda ip, args, kwargs, lineno: {k: Opaque("type") for k in args[0]},
+                             "bionumpy.bnpdataclass.bnpdataclass.BNPDataClass.extend": lambda ip, args, kwargs, lineno: _NewClass(_af_holder["st"])},
+                    dropped=["TypeError message"],
+                    canaries=[("operand column wins over the given one", "{**vars(self), **fields}", "{**fields, **vars(self)}")] if set(given) & {"a", "b"} else
+                             [("given columns dropped", "{**vars(self), **fields}", "{**vars(self)}")])
+
+
+_af_holder = {}
+
+
+def _wrap_setup(con):
+    inner = con.setup
+
+    def setup(ctx):
+        st = inner(ctx)
+        _af_holder["st"] = st
+        return st
+    con.setup = setup
+    return con
+
+
+for _label, _given in (("new column", ("c",)), ("existing name", ("b",)), ("existing and new", ("b", "c"))):
+    CONTRACTS.append(_wrap_setup(_mk_add_fields(_label, _given)))
